@@ -27,7 +27,7 @@ SYMS_C = [(f, 0, s) for f in "FCLU" for s in (1, 1025, 4097, 8193)]
 APIDS = (0x0A1, 0x2B2)
 
 
-def build_history(hist, base, k, vary=False, skip=0, syms=None):
+def build_history(hist, base, k, vary=False, skip=0, syms=None, bare=False):
     """-> (stream bytes, [packet bytes], [(flag, apid_index, count, tag)]).  With vary=True the header bits that do not take part in
     reassembly (version, type, secondary-header flag) differ from packet to packet."""
     counts = {0: (base - 1) % 16384, 1: (base + 5 - 1) % 16384}
@@ -37,6 +37,9 @@ def build_history(hist, base, k, vary=False, skip=0, syms=None):
         counts[a] = (counts[a] + step) % 16384
         tag = 0x10 + i
         data = bytes([0xE0 + j for j in range(k)]) + bytes([tag, tag ^ 0xFF])
+        if bare and k and f in "CL" and i % 2:
+            # a later segment that carries nothing but its secondary header (or, every fourth packet, even less than that)
+            data = bytes([0xE0 + j for j in range(k)])[:k if i % 4 == 1 else max(1, k - 2)]
         if vary:
             hb = {"shflag": (i + 1) % 2, "type_": (i // 2) % 2, "version": (i * 3) % 8}
         else:
@@ -93,9 +96,9 @@ def tags_of(raw: bytes, k):
     return [raw[i] for i in range(6 + k, len(raw) - 1, 2) if raw[i] ^ raw[i + 1] == 0xFF]
 
 
-def check_history(t: Tally, defn, hist, base, k, states, vary=False, skip=0, alphabet="A"):
+def check_history(t: Tally, defn, hist, base, k, states, vary=False, skip=0, alphabet="A", bare=False):
     syms = SYMS_B if alphabet == "B" else SYMS_C if alphabet == "C" else SYMS
-    stream, pkts, meta = build_history(hist, base, k, vary, skip, syms)
+    stream, pkts, meta = build_history(hist, base, k, vary, skip, syms, bare)
     want = model(pkts, meta, k, states)
     got, nwarn = run_impl(defn, stream, k, skip)
     t.evals += 1
@@ -123,7 +126,7 @@ def check_history(t: Tally, defn, hist, base, k, states, vary=False, skip=0, alp
         t.violation({"kind": "reassembly", "observed": okind, "stale_group_reuse": bool(after_last and okind == "mismatch"),
                      "secondary_header_bytes": k},
                     {"history": [list(syms[s]) for s in hist], "hist_idx": list(hist), "base": base, "k": k, "vary_header_bits": vary, "skip_header_bytes": skip,
-                     "alphabet": alphabet},
+                     "alphabet": alphabet, "bare": bare},
                     expected=[w.hex() for w in want],
                     observed=[g.hex() for g in got] if not isinstance(got, tuple) else list(got), note=why)
 
@@ -148,6 +151,8 @@ def _task(task):
                         for base in task["bases"]:
                             check_history(t, defn, hist, base, 0, states, alphabet="B")
                         check_history(t, defn, hist, task["bases"][-1], 0, states, alphabet="C")
+                        for kb in (1, 3):
+                            check_history(t, defn, hist, task["bases"][0], kb, states, bare=True)
                     t.nontrivial += any(SYMS[s][0] in "FCL" for s in hist)
     except BaseException as e:  # noqa: BLE001
         t.violation({"kind": "sweep-aborted", "exc": type(e).__name__}, {"length": n, "firsts": task["firsts"]}, observed=repr(e)[:200])
@@ -223,7 +228,7 @@ def run(ctx):
         "exhaustive": True,
         "bound": (f"EVERY history of length <= {max_len} over 16 symbols ({{F,C,L,U}} x 2 APIDs x sequence step {{+1,+2}})"
                   + ("" if ctx.quick else " (length 5, 6 halved by APID symmetry; length 6 with base 16382 and no secondary header)")
-                  + "; histories of length <= 4 also with version/type/secondary-header-flag bits that differ from packet to packet, on a second alphabet ({F,C,L,U} on one APID x sequence step {+1,+2,0 (repeated count),-1}), a third one with steps {1, 1025, 4097, 8193}, groups of 1023 ... 32769 segments (longer than the counter period), valid and with one skipped count, and as raw records (3 or 4 foreign bytes before every packet, skip_header_bytes) with secondary headers of 0..2 bytes; base sequence counts {0, 16382} (wrap-around inside the history); secondary_header_bytes {0,1,3} on the shorter histories; "
+                  + "; histories of length <= 4 also with version/type/secondary-header-flag bits that differ from packet to packet, on a second alphabet ({F,C,L,U} on one APID x sequence step {+1,+2,0 (repeated count),-1}), a third one with steps {1, 1025, 4097, 8193}, histories whose later segments carry only their secondary header (or less), groups of 1023 ... 32769 segments (longer than the counter period), valid and with one skipped count, and as raw records (3 or 4 foreign bytes before every packet, skip_header_bytes) with secondary headers of 0..2 bytes; base sequence counts {0, 16382} (wrap-around inside the history); secondary_header_bytes {0,1,3} on the shorter histories; "
                   "every history runs in a fresh generator but all of them on ONE definition object per worker, so group state that outlives a generator "
                   "(or is shared between generators) makes later histories disagree with the model"),
         "rule": ("one evaluation = one history replayed on a fresh generator and on the model; distinct non-trivial = distinct histories containing at "
@@ -239,7 +244,7 @@ def replay(case):
         t = _task_long_groups({"sizes": [case["long_group"]], "base": case["base"]})
         return next((v for v in t.violations if v["case"]["gap_at"] == case["gap_at"]), None)
     t = Tally()
-    check_history(t, header_only_definition(), tuple(case["hist_idx"]), case["base"], case["k"], None, vary=case.get("vary_header_bits", False), skip=case.get("skip_header_bytes", 0), alphabet=case.get("alphabet", "A"))
+    check_history(t, header_only_definition(), tuple(case["hist_idx"]), case["base"], case["k"], None, vary=case.get("vary_header_bits", False), skip=case.get("skip_header_bytes", 0), alphabet=case.get("alphabet", "A"), bare=case.get("bare", False))
     return t.violations[0] if t.violations else None
 
 
